@@ -4,7 +4,7 @@
    operation, the raw store and KV dump, and the referenced set recomputed by walking the
    real store (FindEntry + ResolveChunkManifest). *)
 From Coq Require Import List NArith ZArith Bool String.
-From SW Require Export base.Verdict model.Chunks model.HardLink model.FilerGC.
+From SW Require Export base.Verdict model.Chunks model.HardLink model.FilerGC model.FilerGCWire.
 Import ListNotations.
 Local Open Scope N_scope.
 
@@ -27,7 +27,10 @@ Record obs := {
   i_refs : list N           (* referenced chunk ids (sorted set) *)
 }.
 
-Record case := { c_env : env; ops : list op; impl : list obs }.
+(* ops = the DECODED requests (what the model and the specification work on); encs = for every operation the
+   chunk references of its first chunk-carrying request as sent: (decoded id, 0 both fields / 1 fid object
+   only / 2 file_id string only).  The specification (oracle, triggers) never looks at encs. *)
+Record case := { c_env : env; ops : list op; encs : list sent; impl : list obs }.
 
 Fixpoint all2 {A B} (f : A -> B -> bool) (l1 : list A) (l2 : list B) : bool :=
   match l1, l2 with
@@ -58,6 +61,28 @@ Definition same_obs (ev : env) (m : res) (i : obs) : bool :=
   forallb (fun pe => opt_eqb (w_find (st_of m) (fst pe)) (Some (snd pe))) (i_view i) &&
   list_eqb N.eqb (dedup_sorted (sort_n (refs ev (st_of m)))) (i_refs i).
 
+(* the reported encodings belong to the operation: they name exactly the chunks the decoded request brings
+   (a write whose lookup fails sends nothing) *)
+Definition sent_ok (ev : env) (s : st) (o : op) (sn : sent) : bool :=
+  match o with
+  | Write p _ _ _ =>
+      match (if in_scope p then find_entry ev s p else None) with
+      | None => match sn with [] => true | _ => false end
+      | Some _ => sent_matches o sn
+      end
+  | _ => sent_matches o sn
+  end.
+
+(* correspondence along the encoding-aware run of the model *)
+Fixpoint corr (ev : env) (s : st) (os : list op) (sns : list sent) (im : list obs) : bool :=
+  match os, sns, im with
+  | [], [], [] => true
+  | o :: os', sn :: sns', i :: im' =>
+      let r := step_w ev s o sn in
+      sent_ok ev s o sn && same_obs ev r i && corr ev (st_of r) os' sns' im'
+  | _, _, _ => false
+  end.
+
 (* the property oracle on the implementation's observables only:
    s = its state before the step, rb = its referenced set before.  The history is judged up to the
    first operation that breaks a client assumption (op_ok, evaluated on the IMPLEMENTATION's state) *)
@@ -81,7 +106,7 @@ Fixpoint judged (ev : env) (s : st) (os : list op) : list op :=
 Definition assumed (c : case) : bool := flat_env (c_env c) && hist_ok (c_env c) empty_st (ops c).
 
 Definition check (c : case) : outcome :=
-  {| o_corr := all2 (same_obs (c_env c)) (run (c_env c) empty_st (ops c)) (impl c);
+  {| o_corr := corr (c_env c) empty_st (ops c) (encs c) (impl c);
      (* the property is stated under the client assumptions (op_ok per operation, flat_env): the steps
         after the first operation outside them (the malformed stream) are judged on correspondence only *)
      o_prop := if flat_env (c_env c) then oracle (c_env c) empty_st [] (ops c) (impl c) else true;
